@@ -19,8 +19,10 @@
 #include <cctype>
 #include <cstdint>
 #include <string>
+#include <type_traits>
 #include <utility>
 
+#include "runtime/cpp/emboss_bit_util.h"
 #include "runtime/cpp/emboss_defines.h"
 #include "runtime/cpp/emboss_view_parameters.h"
 
@@ -59,12 +61,12 @@ class EnumView final {
   // TODO(bolms): Here and in CouldWriteValue(), the static_casts to ValueType
   // rely on implementation-defined behavior when ValueType is signed.
   ValueType Read() const {
-    ValueType result = static_cast<ValueType>(buffer_.ReadUInt());
+    ValueType result = ConvertToValue(buffer_.ReadUInt());
     EMBOSS_CHECK(Parameters::ValueIsOk(result));
     return result;
   }
   ValueType UncheckedRead() const {
-    return static_cast<ValueType>(buffer_.UncheckedReadUInt());
+    return ConvertToValue(buffer_.UncheckedReadUInt());
   }
   void Write(ValueType value) const {
     const bool result = TryToWrite(value);
@@ -74,11 +76,11 @@ class EnumView final {
   bool TryToWrite(ValueType value) const {
     if (!CouldWriteValue(value)) return false;
     if (!IsComplete()) return false;
-    buffer_.WriteUInt(static_cast<typename BitViewType::ValueType>(value));
+    buffer_.WriteUInt(ConvertToBits(value));
     return true;
   }
   static constexpr bool CouldWriteValue(ValueType value) {
-    // The value can be written if:
+    // An unsigned enum value can be written if:
     //
     // a) it can fit in BitViewType::ValueType (verified by casting to
     //    BitViewType::ValueType and back, and making sure that the value is
@@ -88,19 +90,15 @@ class EnumView final {
     //
     // b1) the field size is large enough to hold all values, or
     // b2) the value is less than 2**(field size in bits)
-    return value == static_cast<ValueType>(
-                        static_cast<typename BitViewType::ValueType>(value)) &&
-           ((Parameters::kBits ==
-             sizeof(typename BitViewType::ValueType) * 8) ||
-            (static_cast<typename BitViewType::ValueType>(value) <
-             ((static_cast<typename BitViewType::ValueType>(1)
-               << (Parameters::kBits - 1))
-              << 1))) &&
+    //
+    // A signed enum value can be written if it is in the two's-complement range
+    // of the field size, as for IntView.
+    return (kIsSigned ? SignedValueFits(static_cast</**/ ::std::int64_t>(value))
+                      : UnsignedValueFits(value)) &&
            Parameters::ValueIsOk(value);
   }
   void UncheckedWrite(ValueType value) const {
-    buffer_.UncheckedWriteUInt(
-        static_cast<typename BitViewType::ValueType>(value));
+    buffer_.UncheckedWriteUInt(ConvertToBits(value));
   }
 
   template <typename OtherView>
@@ -150,6 +148,52 @@ class EnumView final {
   static constexpr int SizeInBits() { return Parameters::kBits; }
 
  private:
+  using UnderlyingType = typename ::std::underlying_type<ValueType>::type;
+  using UnsignedType = typename ::std::make_unsigned<UnderlyingType>::type;
+  using BitsType = typename BitViewType::ValueType;
+  static constexpr bool kIsSigned = ::std::is_signed<UnderlyingType>::value;
+
+  // A signed enum is stored in two's complement at the width of the field, the
+  // same as Int: a field narrower than the enum's underlying type must be
+  // sign-extended on read, and negative values truncated to the field width on
+  // write.
+  static ValueType ConvertToValue(BitsType data) {
+    // As in IntView::ConvertToSigned: shift the field's sign bit to the top of
+    // the underlying type, convert to signed, and shift back, which copies the
+    // sign bit.
+    return kIsSigned
+               ? static_cast<ValueType>(
+                     static_cast<UnderlyingType>(static_cast<UnsignedType>(
+                         static_cast<UnsignedType>(data)
+                         << (sizeof(UnderlyingType) * 8 - Parameters::kBits))) >>
+                     (sizeof(UnderlyingType) * 8 - Parameters::kBits))
+               : static_cast<ValueType>(data);
+  }
+  static BitsType ConvertToBits(ValueType value) {
+    return MaskToNBits(
+        static_cast<BitsType>(static_cast<UnderlyingType>(value)),
+        Parameters::kBits);
+  }
+  static constexpr bool UnsignedValueFits(ValueType value) {
+    return value == static_cast<ValueType>(static_cast<BitsType>(value)) &&
+           ((Parameters::kBits == sizeof(BitsType) * 8) ||
+            (static_cast<BitsType>(value) <
+             ((static_cast<BitsType>(1) << (Parameters::kBits - 1)) << 1)));
+  }
+  static constexpr bool SignedValueFits(::std::int64_t value) {
+    return value >= (Parameters::kBits == 1
+                         ? -1
+                         : (static_cast</**/ ::std::int64_t>(1)
+                            << (Parameters::kBits - 2)) *
+                               -2) &&
+           value <= (Parameters::kBits == 1
+                         ? 0
+                         : ((static_cast</**/ ::std::int64_t>(1)
+                             << (Parameters::kBits - 2)) -
+                            1) * 2 +
+                               1);
+  }
+
   BitViewType buffer_;
 };
 
